@@ -119,4 +119,4 @@ def main(tier, seed, replay=None):
     finally:
         shutil.rmtree(scratch, ignore_errors=True)
     ck.cov["traces_validated_against_impl"] = ck.cases if hasattr(ck, "cases") else 0
-    return ck.finish(rule="for each remote execution model of the standard library (thread, main_thread_only): workers started from transmitted source on `python -S -E` (execnet not importable, checked remotely) via python=, via=master + python=, a stand-alone copy of script/socketserver.py run by `python -S -E`, and socket//installvia; 14 transcript programs each (typed echo of generated values, payloads up to 70 kB, remote error, sub-channels both ways, callbacks on both sides, stdout/fd-1 noise, module and function with kwargs, status) compared with the import-bootstrapped popen worker. distinct = (configuration, execmodel, program seed).")
+    return ck.finish(rule="for each remote execution model of the standard library (thread, main_thread_only): workers started from transmitted source on `python -S -E` (execnet not importable, checked remotely) via python=, via=master + python=, a stand-alone copy of script/socketserver.py run by `python -S -E`, and socket//installvia; 15 transcript programs each (Gateway._rinfo, typed echo of generated values, payloads up to 70 kB, remote error, sub-channels both ways, callbacks on both sides, stdout/fd-1 noise, module and function with kwargs, status) compared with the import-bootstrapped popen worker. distinct = (configuration, execmodel, program seed).")
